@@ -9,7 +9,7 @@ from oracle import tables as tb
 from .common import Spec, Claims
 
 PROPERTY = "C18"
-BOUNDS = ("request strings of 1..3 (quick) / 1..4 (thorough) comma items, each a symbolic number 1..65535 or a range a-b with "
+BOUNDS = ("request strings of 1..3 (quick) / 1..4 (thorough; four items only with a range among them) comma items, each a symbolic number 1..65535 or a range a-b with "
           "symbolic a and width 0..2, any interleaving; source or destination side; templates {tcp, udp} x {no operator, eq, range} "
           "(+ flags/log/host fields that must survive); ports-per-line 0 (unlimited), 1, 2, 3; both range policies; both platforms; "
           "numbers (port_nr=True) and, for single ports, names.  Protocol ranges: 10 concrete request strings (netports' parser enumerates per value), template host and packet symbolic.")
@@ -17,7 +17,9 @@ ASSUMPTIONS = ["a ValueError (eq template with an a-b item under the range polic
                "templates) is a refusal and not judged", "neq templates are outside the property (one `neq p` per port is pinned by tests)"]
 
 SHAPES = ["n", "r", "n,n", "n,r", "r,n", "r,r", "n,n,n", "n,r,n", "r,n,n"]
-SHAPES_T = SHAPES + ["n,n,n,n", "n,n,r,n", "r,n,r"]
+# four free single ports ("n,n,n,n": 24 orders x adjacency patterns, > 900 s per structural shard) were tried and dropped from the
+# thorough tier: four items are covered with one range among them
+SHAPES_T = SHAPES + ["n,n,r,n", "r,n,r"]
 TEMPLATES = {
     "plain-tcp": ("permit tcp any any", "tcp", None),
     "fields-udp": ("deny udp host 10.1.1.1 10.2.0.0 0.0.0.255 log", "udp", None),
@@ -162,7 +164,8 @@ def h_protocols(ctx):
 def specs(tier, seed, concrete=False):
     shapes = SHAPES if tier == "quick" else SHAPES_T
     return [
-        Spec("ports", h_ports, [{"shape": s, "template": t, "side": sd} for s in shapes for t in sorted(TEMPLATES) for sd in ("src", "dst")],
+        Spec("ports", h_ports, [dict({"shape": s, "template": t, "side": sd}, **extra) for s in shapes for t in sorted(TEMPLATES) for sd in ("src", "dst")
+                                for extra in ([{}] if s in SHAPES else [{"platform": p, "policy": pol} for p in ("ios", "nxos") for pol in (True, False)])],
              goals=["generated", "refused"], describe="range_ports(): validity, limit, policy, template fields, exact cover"),
         Spec("protocols", h_protocols, [{"request": r} for r in PROTO_REQUESTS], goals=["generated"],
              describe="range_protocols()"),
